@@ -76,6 +76,9 @@ static int payload_counter;                                   // unique payload 
 struct Req { int origin, dest; bool has; int payload; bool any; };
 static Req last_request;                                      // the request currently outstanding (as issued by the script)
 static Req survivor; static Req evaluating; static bool eval_cancelled; static int rounds; static bool in_step;
+static bool round_open;
+static void round_close() { if (round_open) { if (!eval_cancelled) survivor = evaluating; round_open = false; } }
+static void round_begin() { round_close(); round_open = true; eval_cancelled = false; evaluating = last_request; last_request = Req{}; }
 static int step_start_active; static bool activation;
 static const Ev* cur_event; static std::vector<int> cycle;    // phase callbacks of the current update()/react()
 static std::vector<std::string> logrec;                       // logger records since the last check
@@ -111,23 +114,18 @@ template <typename TC> static void check_control(TC& c, int id, int k) {
 static void guard(FSM::GuardControl& c, int id, int k) {
 	note(std::string(kname[k]) + num(id));
 	check_control(c, id, k);
-	if (p_entered >= 0 || activation) {
-		// which request is being evaluated?  a new round starts at the exit guard (or at the entry guard during activation / after a silent exit guard)
-		const Transition& pt = c.pendingTransition();
-		if (k == EXIT_GUARD || !evaluating.any || evaluating.dest != (pt ? pt.destination : 255) || eval_cancelled) { /* bookkeeping below */ }
-	}
+	// a round starts at the exit guard (processing) or at the root's entry guard (activation)
+	if ((activation && k == ENTRY_GUARD && id < 0) || (!activation && k == EXIT_GUARD) || !round_open) round_begin();
 	if (ORACLES & O_PAYLOAD) {
-		if (last_request.any && !same(c.pendingTransition(), last_request) && c.pendingTransition())
-			err(std::string(kname[k]) + " of state " + num(id) + " sees pending " + show(c.pendingTransition()) + " but the request under evaluation is " + show(last_request));
+		if (!same(c.pendingTransition(), evaluating))
+			err(std::string(kname[k]) + " of state " + num(id) + " sees pending " + show(c.pendingTransition()) + " but the request under evaluation is " + show(evaluating));
 		if (!same(c.currentTransition(), survivor))
 			err(std::string(kname[k]) + " of state " + num(id) + " sees current " + show(c.currentTransition()) + " but the transition accepted so far is " + show(survivor));
 	}
 	const int ch = choose(2 + 2 * NS + 2 * NS);   // 0 nothing, 1 cancel, 2.. redirect (with/without payload), then cancel+redirect
-	const Req evaluated = last_request;
 	if (ch == 1) { c.cancelPendingTransition(); note("cancel"); eval_cancelled = true; }
-	else if (ch >= 2 && ch < 2 + 2 * NS) { last_request = Req{}; request(c, id, ch - 1); }
-	else if (ch >= 2 + 2 * NS) { c.cancelPendingTransition(); note("cancel"); eval_cancelled = true; last_request = Req{}; request(c, id, ch - 1 - 2 * NS); }
-	(void) evaluated;
+	else if (ch >= 2 && ch < 2 + 2 * NS) { request(c, id, ch - 1); }
+	else if (ch >= 2 + 2 * NS) { c.cancelPendingTransition(); note("cancel"); eval_cancelled = true; request(c, id, ch - 1 - 2 * NS); }
 }
 template <typename TC> static void phase(TC& c, int id, int k, const Ev* e) {
 	note(std::string(kname[k]) + num(id));
@@ -140,6 +138,7 @@ template <typename TC> static void phase(TC& c, int id, int k, const Ev* e) {
 }
 static void lifecycle(PlanControlX& c, int id, int k) {
 	note(std::string(kname[k]) + num(id));
+	round_close();
 	check_control(c, id, k);
 	if (ORACLES & O_PROTOCOL) {
 		if (k == ENTER) {
@@ -153,7 +152,7 @@ static void lifecycle(PlanControlX& c, int id, int k) {
 		if (k == ENTER) { if (id < 0) p_root = true; else p_entered = id; }
 		if (k == EXIT) { if (id < 0) p_root = false; else p_entered = -1; }
 	}
-	if ((ORACLES & O_PAYLOAD) && (k == ENTER || k == REENTER) && id >= 0 && in_step && !same(c.currentTransition(), survivor))
+	if ((ORACLES & O_PAYLOAD) && (k == ENTER || k == REENTER) && id >= 0 && (in_step || activation) && !same(c.currentTransition(), survivor))
 		err(std::string(kname[k]) + " of state " + num(id) + " sees current " + show(c.currentTransition()) + " but the surviving request is " + show(survivor));
 }
 
@@ -238,12 +237,12 @@ int main() {
 	const std::clock_t t0 = std::clock();
 	long runs = 0;
 	do {
-		pos = 0; trace.clear(); errors.clear(); p_entered = -1; p_root = false; payload_counter = 100; last_request = Req{}; survivor = Req{}; evaluating = Req{}; in_step = false; inst = nullptr; logrec.clear();
+		pos = 0; trace.clear(); errors.clear(); round_open = false; eval_cancelled = false; p_entered = -1; p_root = false; payload_counter = 100; last_request = Req{}; survivor = Req{}; evaluating = Req{}; in_step = false; inst = nullptr; logrec.clear();
 		Ctx ctx{77};
 		{
 			activation = true;
 			FSM::Instance m{ctx};
-			activation = false;
+			round_close(); activation = false;
 			inst = &m;
 			after_call("construction");
 			Req leftover = Req{};
@@ -258,20 +257,24 @@ int main() {
 			for (int step = 0; step < 2 && errors.empty(); ++step) {
 				const int api = choose(2 + 2 * NS);   // 0 update, 1 react, 2.. immediateChangeTo / immediateChangeWith
 				const int before = active_now();
-				survivor = Req{}; last_request = Req{}; in_step = true; cycle.clear();
+				round_close(); survivor = Req{}; last_request = leftover; in_step = true; cycle.clear();
 				std::string what; Req api_req = Req{};
 				Ev ev{5}; cur_event = nullptr;
 				if (api == 0) { what = "update()"; note("|update"); m.update(); }
 				else if (api == 1) { what = "react()"; note("|react"); cur_event = &ev; m.react(ev); cur_event = nullptr; }
 				else if (api < 2 + NS) { what = "immediateChangeTo(" + num(api - 2) + ")"; note("|" + what); last_request = api_req = Req{-1, api - 2, false, 0, true}; m.immediateChangeTo(static_cast<StateID>(api - 2)); }
 				else { const int p = ++payload_counter; what = "immediateChangeWith(" + num(api - 2 - NS) + "," + num(p) + ")"; note("|" + what); last_request = api_req = Req{-1, api - 2 - NS, true, p, true}; m.immediateChangeWith(static_cast<StateID>(api - 2 - NS), p); }
-				in_step = false;
+				round_close(); in_step = false;
 				after_call(what.c_str());
 				// ---- survivor / rounds / history oracles, recomputed from the trace of this step
 				{
 					const size_t bar = trace.rfind('|');
 					Req surv = Req{}; int nrounds = 0;
+					const Req carried = leftover;
 					analyse(trace.substr(bar), api >= 2 ? api_req : leftover, false, surv, leftover, nrounds);
+					// C07 / C02: a request that was issued and neither cancelled nor replaced must come before the guards at the next processing point
+					if ((ORACLES & O_PAYLOAD) && api < 2 && carried.any && nrounds == 0 && trace.substr(bar).find("req{") == std::string::npos)
+						err("after " + what + ": the request " + show(carried) + " issued during the previous step was silently dropped (never evaluated by guards, never applied)");
 					const bool phase_step = api < 2;
 					(void) phase_step;
 					if ((ORACLES & O_ROUNDS) && nrounds > LIMIT) err("after " + what + ": " + num(nrounds) + " guard rounds exceed the substitution limit " + num(LIMIT));
